@@ -41,7 +41,7 @@ type c20Case struct {
 	Ctrl string `json:",omitempty"`
 }
 
-var c20Kinds = []string{"child", "child", "random", "random", "nest", "addproc", "addproc", "setmem", "setproc", "setcpu", "usage", "destroy", "destroy", "external", "external-partial", "concurrent-random", "concurrent-new", "reopen", "nest-existing", "openexisting", "openexisting", "open-destroy", "open-destroy"}
+var c20Kinds = []string{"child", "child", "random", "random", "nest", "addproc", "addproc", "setmem", "setproc", "setcpu", "usage", "destroy", "destroy", "external", "external-partial", "concurrent-random", "concurrent-new", "reopen", "nest-existing", "openexisting", "openexisting", "open-destroy", "open-destroy", "addproc-multi", "external-first"}
 
 func c20GenCase(rt *rapid.T) c20Case {
 	var c c20Case
@@ -502,6 +502,63 @@ func c20Run(c c20Case, w *c20World, v1 bool, rec *vh.Recorder) error {
 			for _, m := range ms {
 				where[m] = rel
 			}
+		case "addproc-multi":
+			// several pids in one call, the first of which has exited meanwhile: either the call reports an error, or every
+			// living process of the call is in the group afterwards
+			dead := exec.Command("/bin/true")
+			if err := dead.Run(); err != nil {
+				continue
+			}
+			p := op.P % len(parked)
+			err := h.cg.AddProc(dead.Process.Pid, parked[p].Process.Pid)
+			if err != nil {
+				// how far it got is the library's business: re-read where the living one is now
+				cgs := procCgroupOf(parked[p].Process.Pid)
+				key := w.ctrls[0]
+				if w.unified {
+					key = ""
+				}
+				if g := strings.TrimPrefix(cgs[key], "/"); g == h.path {
+					where[p] = h.path
+				}
+				classes = append(classes, "addproc-with-a-vanished-pid:error-reported")
+				continue
+			}
+			if hasChildren(h.path) && !v1 {
+				continue
+			}
+			where[p] = h.path // checked by the invariant below: every thread of it must be there
+			nt = true
+			classes = append(classes, "addproc-with-a-vanished-pid:nil-returned")
+		case "external-first":
+			// the name exists already in the FIRST controller hierarchy only (somebody with fewer controllers made it):
+			// a handle made over it did not create that group and must not remove it
+			if !v1 || len(w.ctrls) < 2 {
+				continue
+			}
+			rel := filepath.Join(h.path, names[op.Name])
+			if _, any := w.exists(rel); any {
+				continue
+			}
+			first := w.dir(w.ctrls[0], rel)
+			if err := os.Mkdir(first, 0o755); err != nil {
+				return vh.Infraf("external mkdir: %v", err)
+			}
+			partial[first] = true
+			nh, err := h.cg.New(names[op.Name])
+			if err == nil && nh != nil {
+				nh.Destroy()
+			}
+			if _, serr := os.Stat(first); serr != nil {
+				return vh.Violf("C20:destroyed-pre-existing", "%s: %s existed before (made from outside, in the first hierarchy only); New(%q) over it (err %v) followed by Destroy removed it", desc(i, op), first, names[op.Name], err)
+			}
+			// leave the model clean: remove what this op made
+			for _, ctrl := range w.ctrls {
+				syscall.Rmdir(w.dir(ctrl, rel))
+			}
+			delete(partial, first)
+			nt = true
+			classes = append(classes, "pre-existing-in-the-first-hierarchy-only")
 		case "addproc":
 			p := op.P % len(parked)
 			if err := h.cg.AddProc(parked[p].Process.Pid); err != nil {
